@@ -58,6 +58,18 @@ CHECKS = {
     "C10": (EX, "bounded-exhaustive enumeration of quantity pairs x operators x container combinations x length pairs on the real Array operators, differential against the element-wise Scalar path",
             "Every ordered pair of an 18-quantity pool (quick) / of all 101 depth-2 derived states (thorough) x {+ - * / //} x 9 list/tuple/ndarray container combinations x all 16 length pairs in 0..3 is executed: equal lengths must give exactly the element-wise Scalar values and quantity (and raise exactly when the Scalar path raises), unequal lengths must raise. GetValues(unit) is compared with Scalar.GetValue for every ordered unit pair of 6 (quick) / all (thorough) quantity types x containers x lengths incl. lists of tuples; FromScalars over every sequence of length 0..3 of 5 mixed-unit scalars x unit and category choices. The numpy length-1 broadcast (D15) is a recorded finding attributed by a defect model.",
             "the Scalar path is the reference (judged by C03/C04); fixed element alphabets"),
+    "C12": (EX, "bounded-exhaustive enumeration of limit configurations x units x probe alphabets x every element sequence up to a length on real validation, judged by the property's definition",
+            "A database is rebuilt per configuration: 2 quantity types (one affine) x every default unit x 9 limit configurations (none/min/max/both x inclusive/exclusive). For every unit an alphabet of probes (below, just below, exactly at - only where the conversion is exact -, just inside, inside, ..., NaN, +-inf) is validated as Scalar, FractionScalar, through db.CheckValueForCategory and ScalarMinMaxValidator, and EVERY sequence of length 0..3 (thorough 0..4) over the alphabet as Array and FixedArray over list/tuple/ndarray (so every element order), plus lists of tuples; IsValid/CheckValidity must equal the definition on the amounts converted to the default unit, rejections must report a violated limit, its operator and an offending amount, verdicts must be stable on the second call. Registration: 9 limit kinds x default unit x 11-15 valid-unit sets x 6 default values x direct/from_category: rejected, or the defaults satisfy the category's own constraints.",
+            "db.Convert is the reference conversion (judged by C01); an explicit default_unit outside explicit valid_units is accepted by design"),
+    "C16": (EX, "complete enumeration of every derivable legacy spelling x every unit-taking entry point x both request orders, differential against the current spelling",
+            "Every legacy spelling derivable from the substitution list for every table unit (64 today) goes through 35 entry points (ObtainQuantity forms, Scalar/Array/FixedArray/FractionScalar constructors, CreateCopy, GetValue/GetValues, Quantity.Convert, db.Convert in every argument position and container, GetDefaultCategory, GetInfo, CheckValueForCategory, AddCategory(valid_units/default_unit) on a fresh database, arithmetic, comparison), legacy first on a cold cache and current first; results must equal those of the current spelling and objects must report the current symbol; every one of the 1548 current symbols must be a fixed point of the rewrite, and the rewrite idempotent. thorough adds every conversion target of the type.",
+            "the substitution list is read from barril; a conversion between the two spellings of one unit may differ by rounding (same-unit shortcut is taken on the spelling)"),
+    "C18": (EX, "bounded-exhaustive enumeration of Fraction pairs, FractionValue triples, CreateFromFloat inputs and FractionScalar unit pairs, judged by exact rational arithmetic and by the Scalar path",
+            "(A) all 16x16 Fraction pairs x + - * / % and six comparisons, numbers on both sides, ** -2..3, unary operations and setters against fractions.Fraction; (B) 11 numbers x 7 numerators x denominators 1..64: float, copy, str->CreateFromString in both locale modes exactly, order operators over all ordered pairs of a third of them; (C) CreateFromFloat on every +-n/10^k (n <= 10^4, k <= 4) and terminating i + p/q (q <= 64); (D) every ordered unit pair of every quantity type x 3 (thorough 5) fraction values: FractionScalar.GetValue, db.Convert(FractionValue) and order operators against Scalar(float(value)). D11b (numerator quantised by Fraction) is a recorded finding attributed by a defect model.",
+            "order of FractionValues judged where exact amounts differ by > 1e-9 or floats are identical; format/parse for %g-positional numbers"),
+    "C19": (EX, "complete enumeration of every unit and category of the table x construction forms, pairwise equality inside each family",
+            "Every unit (1548) with its resolved default category (which must exist and have the unit's quantity type) - and every other category of the type for the first/last unit of each type (quick) or for every unit (thorough) - x 3 values is built through 13 Scalar forms, 6 FractionScalar forms, 8 Array and 7 FixedArray forms over list/tuple/ndarray of length 0..3; all forms of a family are compared pairwise with == and != in both directions; eval(repr(scalar)) == scalar; every category (328): category-only form vs default value/unit forms for the four classes and Scalar(c, unit=u) for every unit.",
+            "values {1.5, -2.0, 0.0}"),
 }
 
 NOT_YET = {}
